@@ -904,7 +904,7 @@ func c46(c *rig.Ctx) {
 	c46matcher(c, ref, st)
 	box := startBox(c, "c46")
 	defer box.close()
-	n := c.Pick(60, 3000)
+	n := c.Pick(60, 1500)
 	for i := 0; i < n && c.Violations() < 60; i++ {
 		c46scenario(c, box, ref, i, st)
 	}
